@@ -39,6 +39,10 @@ pub struct KeyTruth {
     pub written: Vec<u64>,
     /// the record of the value that was last invalidated by invalidate_all
     pub last_dead: Option<Live>,
+    /// an insert whose call panicked in a callback of the caller after it had changed something:
+    /// it may or may not have taken effect. Until the key is written or invalidated again, a
+    /// lookup may see `cur` or `alt`, each under its own deadlines.
+    pub alt: Option<Live>,
 }
 
 impl Default for KeyTruth {
@@ -48,6 +52,7 @@ impl Default for KeyTruth {
             dead: DeadReason::NeverInserted,
             written: Vec::new(),
             last_dead: None,
+            alt: None,
         }
     }
 }
@@ -104,10 +109,18 @@ impl Truth {
     pub fn liveness(&self, k: u32, now: u64) -> Liveness {
         match self.keys.get(&k) {
             None => Liveness::Dead(DeadReason::NeverInserted),
-            Some(kt) => match &kt.cur {
-                None => Liveness::Dead(kt.dead),
-                Some(l) => self.liveness_of(l, now),
-            },
+            Some(kt) => {
+                let lv = match &kt.cur {
+                    None => Liveness::Dead(kt.dead),
+                    Some(l) => self.liveness_of(l, now),
+                };
+                // an insert of unknown outcome is pending: nothing is promised about presence
+                if kt.alt.is_some() && lv == Liveness::Live {
+                    Liveness::Maybe
+                } else {
+                    lv
+                }
+            }
         }
     }
 
@@ -160,6 +173,7 @@ impl Truth {
         self.total_inserted_weight = self.total_inserted_weight.saturating_add(weight as u64);
         let kt = self.keys.entry(k).or_default();
         kt.written.push(vid);
+        kt.alt = None;
         kt.cur = Some(Live {
             vid,
             weight,
@@ -169,6 +183,43 @@ impl Truth {
             uncertain: false,
             use_seq: self.seq,
         });
+    }
+
+    /// An insert whose call panicked (injected fault) after changing something.
+    pub fn on_insert_ambiguous(&mut self, k: u32, vid: u64, weight: u32, now: u64) {
+        self.seq += 1;
+        self.total_inserted_weight = self.total_inserted_weight.saturating_add(weight as u64);
+        let kt = self.keys.entry(k).or_default();
+        kt.written.push(vid);
+        kt.alt = Some(Live { vid, weight, t_mod: now, a_hi: now, a_lo: now, uncertain: true, use_seq: self.seq });
+    }
+
+    /// A lookup saw the value of the ambiguous insert: it did take effect.
+    pub fn promote_alt(&mut self, k: u32) {
+        if let Some(kt) = self.keys.get_mut(&k) {
+            if let Some(a) = kt.alt.take() {
+                kt.cur = Some(a);
+            }
+        }
+    }
+
+    /// Is the ambiguous insert of `k` (if any) possibly visible with value `vid` (None: any) at `now`?
+    pub fn alt_may_be_visible(&self, k: u32, vid: Option<u64>, now: u64) -> bool {
+        match self.keys.get(&k).and_then(|t| t.alt.as_ref()) {
+            Some(a) => vid.map(|v| v == a.vid).unwrap_or(true) && matches!(self.liveness_of(a, now), Liveness::Maybe | Liveness::Live),
+            None => false,
+        }
+    }
+
+    /// Another operation of unknown outcome touched `k` (a faulted get / invalidate): nothing is
+    /// promised about its presence any more; its idle deadline may have moved to `now`.
+    pub fn make_uncertain(&mut self, k: u32, now: u64, accessed: bool) {
+        if let Some(l) = self.keys.get_mut(&k).and_then(|t| t.cur.as_mut()) {
+            l.uncertain = true;
+            if accessed {
+                l.a_hi = l.a_hi.max(now);
+            }
+        }
     }
 
     /// A `get` that returned the current value.
@@ -204,7 +255,7 @@ impl Truth {
 
     pub fn on_invalidate(&mut self, k: u32) {
         if let Some(kt) = self.keys.get_mut(&k) {
-            if kt.cur.take().is_some() {
+            if kt.cur.take().is_some() | kt.alt.take().is_some() {
                 kt.dead = DeadReason::InvalidatedByKey;
             }
         }
@@ -213,6 +264,14 @@ impl Truth {
     pub fn on_invalidate_all(&mut self, now: u64) {
         let sync = self.kind == Kind::Sync;
         for kt in self.keys.values_mut() {
+            if let Some(a) = kt.alt {
+                if !(sync && a.t_mod >= now) {
+                    kt.alt = None;
+                    if kt.cur.is_none() {
+                        kt.dead = DeadReason::InvalidatedByAll;
+                    }
+                }
+            }
             if let Some(l) = kt.cur.as_mut() {
                 if sync && l.t_mod >= now {
                     // same clock reading: neither targeted nor protected
@@ -229,6 +288,20 @@ impl Truth {
     /// implementation may or may not still hold them; either way they end up unobservable).
     pub fn on_invalidate_if(&mut self, p: Pred) {
         for (k, kt) in self.keys.iter_mut() {
+            if let Some(a) = kt.alt.as_ref() {
+                // if the ambiguous insert took effect the predicate saw its value, otherwise the
+                // old one: when the two verdicts differ, nothing is known any more
+                let pa = p.eval(*k, a.vid, a.weight);
+                let pc = kt.cur.as_ref().map(|l| p.eval(*k, l.vid, l.weight));
+                if pa && pc.unwrap_or(true) {
+                    kt.alt = None;
+                } else if pa || pc == Some(true) {
+                    if let Some(l) = kt.cur.as_mut() {
+                        l.uncertain = true;
+                    }
+                    continue;
+                }
+            }
             if let Some(l) = kt.cur.as_ref() {
                 if p.eval(*k, l.vid, l.weight) {
                     kt.cur = None;
